@@ -37,7 +37,11 @@ func (s *Slice[T]) Unshift(elements ...T) int {
 	s.mu.Lock()
 	defer s.mu.Unlock()
 
-	s.elements = append(elements, s.elements...)
+	// Never append to the caller's slice: it may have spare capacity, and the
+	// result must not share storage with it.
+	merged := make([]T, 0, len(elements)+len(s.elements))
+	merged = append(merged, elements...)
+	s.elements = append(merged, s.elements...)
 	return len(s.elements)
 }
 
@@ -130,11 +134,18 @@ func (s *Slice[T]) splice(start, deleteCount int, insert ...T) ([]T, error) {
 		return nil, ErrIndexOutOfBounds
 	}
 
+	if deleteCount < 0 {
+		return nil, ErrInvalidSliceRange
+	}
+
 	deleteCount = min(deleteCount, len(s.elements)-start)
 	removed := make([]T, deleteCount)
 	copy(removed, s.elements[start:start+deleteCount])
 
-	s.elements = append(s.elements[:start], append(insert, s.elements[start+deleteCount:]...)...)
+	// Copy the tail first: appending to the caller's insert slice would write
+	// into its spare capacity.
+	tail := append([]T(nil), s.elements[start+deleteCount:]...)
+	s.elements = append(append(s.elements[:start], insert...), tail...)
 	return removed, nil
 }
 
